@@ -487,6 +487,12 @@ impl PayloadDecoder {
     pub fn eof() -> PayloadDecoder {
         PayloadDecoder { kind: Kind::Eof }
     }
+
+    /// Returns true if the payload is delimited by the end of the connection rather than by a
+    /// `Content-Length` or by chunked framing.
+    pub(crate) fn is_eof_delimited(&self) -> bool {
+        matches!(self.kind, Kind::Eof)
+    }
 }
 
 #[derive(Debug, Clone, PartialEq, Eq)]
